@@ -206,11 +206,9 @@ func betweenRuns() {
 		return
 	}
 	var ms runtime.MemStats
-	if gcCount%4 == 0 {
-		runtime.ReadMemStats(&ms)
-		if ms.HeapAlloc > 384<<20 {
-			runtime.GC()
-		}
+	runtime.ReadMemStats(&ms)
+	if ms.HeapAlloc > 256<<20 {
+		runtime.GC()
 	}
 }
 
